@@ -42,11 +42,13 @@ static void judge(const World &w, Avoid::Router *live, const vector<Avoid::ConnR
     ctx.count("states");
     // legality of the scene for clauses (i),(ii)
     for (size_t i = 0; i < w.shapes.size(); i++) for (size_t j = i + 1; j < w.shapes.size(); j++) if (w.shapes[i].alive && w.shapes[j].alive && overlapR(w.shapes[i], w.shapes[j])) { ctx.count("skipped_overlapping_scene"); return; }
-    for (auto &c : w.conns) for (auto &s : w.shapes) if (s.alive) for (int q = 0; q < 2; q++) { int x = q ? c.x1 : c.x0, y = q ? c.y1 : c.y0; if (x >= s.x0 && x <= s.x1 && y >= s.y0 && y <= s.y1) { ctx.count("skipped_endpoint_in_shape"); return; } }
+    vector<char> epIn(w.conns.size(), 0);   // connectors with an endpoint in a closed shape of the final scene are not judged
+    for (size_t k = 0; k < w.conns.size(); k++) for (auto &s : w.shapes) if (s.alive) for (int q = 0; q < 2; q++) { const Ep &c = w.conns[k]; int x = q ? c.x1 : c.x0, y = q ? c.y1 : c.y0; if (x >= s.x0 && x <= s.x1 && y >= s.y0 && y <= s.y1) epIn[k] = 1; }
     Avoid::Router *f = mk(ortho, true); for (auto &s : w.shapes) if (s.alive) mk_shape(f, s);
     vector<Avoid::ConnRef *> fc; for (auto &c : w.conns) fc.push_back(new Avoid::ConnRef(f, Avoid::ConnEnd(Avoid::Point(c.x0 * S, c.y0 * S)), Avoid::ConnEnd(Avoid::Point(c.x1 * S, c.y1 * S))));
     f->processTransaction();
     for (size_t k = 0; k < w.conns.size(); k++) {
+        if (epIn[k]) { ctx.count("skipped_endpoint_in_shape"); continue; }
         ctx.count("evaluations");
         const Avoid::PolyLine &ri = ortho ? lc[k]->route() : lc[k]->displayRoute(), &rf = ortho ? fc[k]->route() : fc[k]->displayRoute(), &di = lc[k]->displayRoute();
         string obs = "incremental " + route_str(di) + " fresh " + route_str(fc[k]->displayRoute());
@@ -153,14 +155,16 @@ static void grid_phase(int G, bool ortho, int epSel) {
     if (epSel >= 101) for (int x0 = 0; x0 <= G; x0++) for (int x1 = 0; x1 <= G; x1++) ring.push_back({x0, -1, x1, G + 1});
     vector<Rc> all; for (int x0 = 0; x0 < G; x0++) for (int x1 = x0 + 1; x1 <= G; x1++) for (int y0 = 0; y0 < G; y0++) for (int y1 = y0 + 1; y1 <= G; y1++) all.push_back({x0, y0, x1, y1, true, false});
     vector<Ep> eps = {{-1, -1, G + 1, G + 1}, {-1, G + 1, G + 1, -1}, {-1, G / 2, G + 1, G / 2}, {G / 2, -1, G / 2, G + 1}, {0, 0, G, G}, {0, 1, G, G - 1}};
-    ctx.phase(mcx::fmt("%s: every pair of interior-disjoint rectangles on grid %d, connector #%d, then every single edit (add any rectangle / move / delete)", ortho ? "orthogonal" : "polyline", G, epSel));
+    ctx.phase(mcx::fmt("%s: every pair of interior-disjoint rectangles on grid %d, connector set #%d (<100 one connector, 100/101 ring, 200 every free grid-point pair with move/delete edits, 201 with all edits), then every single edit (add any rectangle / move / delete)", ortho ? "orthogonal" : "polyline", G, epSel));
     for (size_t a = 0; a < all.size(); a++) for (size_t b = a + 1; b < all.size(); b++) {
         if (overlapR(all[a], all[b])) continue; if (ctx.stopped()) return;
         if (!ctx.next()) continue;
-        World w0; w0.shapes = {all[a], all[b]}; if (epSel >= 100) w0.conns = ring; else w0.conns = {eps[epSel]};
+        World w0; w0.shapes = {all[a], all[b]}; if (epSel >= 200) { vector<array<int, 2>> fr; for (int x = 0; x <= G; x++) for (int y = 0; y <= G; y++) { bool in = false; for (auto &sh : w0.shapes) if (x >= sh.x0 && x <= sh.x1 && y >= sh.y0 && y <= sh.y1) in = true; if (!in) fr.push_back({x, y}); }
+            for (size_t i = 0; i < fr.size(); i++) for (size_t j = i + 1; j < fr.size(); j++) w0.conns.push_back({fr[i][0], fr[i][1], fr[j][0], fr[j][1]}); if (w0.conns.empty()) continue; }
+        else if (epSel >= 100) w0.conns = ring; else w0.conns = {eps[epSel]};
         ctx.sample(world_str(w0) + " then every single edit", 1);
         // edits: the add-list of run_history is RL-indexed, so drive the router directly here
-        for (int kind = 0; kind < 3; kind++) for (size_t n = 0; n < (kind == 0 ? all.size() : kind == 1 ? 8u : 2u); n++) {
+        for (int kind = (epSel == 200 ? 1 : 0); kind < 3; kind++) for (size_t n = 0; n < (kind == 0 ? all.size() : kind == 1 ? 8u : 2u); n++) {
             World w = w0; Avoid::Router *r = mk(ortho, true); vector<Avoid::ShapeRef *> sh; for (auto &s : w.shapes) sh.push_back(mk_shape(r, s));
             vector<Avoid::ConnRef *> lc; for (auto &c : w.conns) lc.push_back(new Avoid::ConnRef(r, Avoid::ConnEnd(Avoid::Point(c.x0 * S, c.y0 * S)), Avoid::ConnEnd(Avoid::Point(c.x1 * S, c.y1 * S))));
             string desc = mcx::fmt("%s start ", ortho ? "orthogonal" : "polyline") + world_str(w0) + " edit: ";
@@ -177,12 +181,38 @@ static void grid_phase(int G, bool ortho, int epSel) {
         ctx.count("nontrivial"); ctx.done_case();
     }
 }
+// "bar and block" family on a larger grid: a wide horizontal or vertical bar A and a long block B perpendicular to it; every free
+// grid-point pair as connector (one router); then B is deleted or moved one cell.  (Routes that are held away from B by A, so
+// that B's removal opens a shorter way without any route vertex on B.)
+static void bar_block_phase(int G, int step) {
+    ctx.phase(mcx::fmt("polyline bar+block family on grid %d: every free grid-point pair (every %d-th), then delete / move the block", G, step));
+    for (int orient = 0; orient < 2; orient++) for (int a0 = 0; a0 < G; a0++) for (int a1 = a0 + 2; a1 <= G; a1++) for (int ay = 0; ay < G; ay++)
+    for (int b0 = 0; b0 < G; b0++) for (int b1 = b0 + 2; b1 <= G; b1++) for (int bx = 0; bx < G; bx++) for (int bw = 1; bw <= 2 && bx + bw <= G; bw++) {
+        Rc A = orient ? Rc{ay, a0, ay + 1, a1, true, false} : Rc{a0, ay, a1, ay + 1, true, false};
+        Rc B = orient ? Rc{b0, bx, b1, bx + bw, true, false} : Rc{bx, b0, bx + bw, b1, true, false};
+        if (overlapR(A, B)) continue; if (ctx.stopped()) return; if (!ctx.next()) continue;
+        World w0; w0.shapes = {A, B}; vector<array<int, 2>> fr; for (int x = 0; x <= G; x++) for (int y = 0; y <= G; y++) { bool in = false; for (auto &sh : w0.shapes) if (x >= sh.x0 && x <= sh.x1 && y >= sh.y0 && y <= sh.y1) in = true; if (!in) fr.push_back({x, y}); }
+        size_t c = 0; for (size_t i = 0; i < fr.size(); i++) for (size_t j = i + 1; j < fr.size(); j++) if ((c++ % step) == 0) w0.conns.push_back({fr[i][0], fr[i][1], fr[j][0], fr[j][1]});
+        ctx.sample(world_str(w0).substr(0, 60) + " ...", 1); ctx.count("nontrivial");
+        for (int n = 0; n < 5; n++) {
+            World w = w0; Avoid::Router *r = mk(false, true); vector<Avoid::ShapeRef *> sh; for (auto &s2 : w.shapes) sh.push_back(mk_shape(r, s2));
+            vector<Avoid::ConnRef *> lc; for (auto &cn : w.conns) lc.push_back(new Avoid::ConnRef(r, Avoid::ConnEnd(Avoid::Point(cn.x0 * S, cn.y0 * S)), Avoid::ConnEnd(Avoid::Point(cn.x1 * S, cn.y1 * S))));
+            string desc = mcx::fmt("polyline start shapes: [%d,%d..%d,%d] [%d,%d..%d,%d] (%zu connectors) edit: ", A.x0, A.y0, A.x1, A.y1, B.x0, B.y0, B.x1, B.y1, w.conns.size());
+            try { r->processTransaction();
+                if (n == 0) { r->deleteShape(sh[1]); w.shapes[1].alive = false; desc += "delete(block)"; }
+                else { int dx = n == 1 ? 1 : n == 2 ? -1 : 0, dy = n == 3 ? 1 : n == 4 ? -1 : 0; r->moveShape(sh[1], dx * S, dy * S); Rc &cc = w.shapes[1]; cc.x0 += dx; cc.x1 += dx; cc.y0 += dy; cc.y1 += dy; cc.touched = true; desc += mcx::fmt("move(block,%+d,%+d)", dx, dy); }
+                ctx.count("transitions"); r->processTransaction(); judge(w, r, lc, false, desc); delete r;
+            } catch (vpsc::CriticalFailure &f) { ctx.library_abort(f.what(), desc); }
+        }
+        ctx.done_case();
+    }
+}
 int main(int argc, char **argv) {
     ctx.init(argc, argv);
     bool T = ctx.thorough();
     for (int ortho = 0; ortho < 2; ortho++) { phase(2, 1, 1, ortho, true, 1, 1); phase(2, 1, 2, ortho, true, 1, 1); phase(2, 1, 2, ortho, false, 1, 2); phase(2, 1, 2, ortho, true, 2, 2); phase(3, 2, 1, ortho, true, 1, 2); }
-    grid_phase(3, false, 0); grid_phase(3, false, 1); grid_phase(3, false, 100); grid_phase(3, true, 0);
-    if (T) { grid_phase(3, false, 101); grid_phase(3, true, 100); for (int e = 0; e < 6; e++) { grid_phase(4, false, e); grid_phase(3, true, e); } grid_phase(4, true, 0); grid_phase(4, true, 2); }
+    grid_phase(3, false, 0); grid_phase(3, false, 1); grid_phase(3, false, 100); grid_phase(3, true, 0); grid_phase(3, false, 200); bar_block_phase(5, 3);
+    if (T) { bar_block_phase(5, 1); bar_block_phase(6, 2); grid_phase(3, false, 201); grid_phase(4, false, 200); grid_phase(3, false, 101); grid_phase(3, true, 100); for (int e = 0; e < 6; e++) { grid_phase(4, false, e); grid_phase(3, true, e); } grid_phase(4, true, 0); grid_phase(4, true, 2); }
     if (T) for (int ortho = 0; ortho < 2; ortho++) { phase(2, 1, 3, ortho, true, 1, 1); phase(2, 1, 3, ortho, false, 1, 2); phase(2, 1, 4, ortho, true, 2, 5); phase(3, 2, 2, ortho, true, 1, 2); phase(3, 1, 3, ortho, true, 3, 5); }
     return ctx.finish();
 }
